@@ -20,6 +20,15 @@ RULE = ("hand-written catalogue (the shape of defect F9 [hosts; redirect; cache]
         "+ every fourth random case a program around one dual_selector (prefer_ipv4/6, pass and block, known names) or "
         "one fallback over two sub-sequences (answering / failing / empty branches, standing by or not) with caches, "
         "redirects and forwarders around and inside "
+        "+ the REAL servers of pkg/server in front of EntryHandler over the stateless chain [hosts; forward]: ServeUDP on a "
+        "loopback socket, ServeTCP on a loopback listener (a connection per query, and all pipelined queries of a case "
+        "back to back on one connection, replies matched by id), the DoH handler behind a loopback HTTP server by GET and "
+        "POST; one boundary case (root name . NS/DNSKEY/SOA without OPT = the 17-byte query, root with OPT, one-label, "
+        "mixed-case and 255-octet names over all five transports; ~63 kB answers over the stream transports and over UDP "
+        "with advertised 65535 / 4096 / none; each of the 7 malformations over TCP, DoH GET/POST and half of them over UDP) "
+        "and 7 seeded random cases (6-12 valid queries of all shapes incl. root and one-label names over random "
+        "transports, advertised UDP sizes around the exact reply length); observed per query: the reply bytes re-parsed, "
+        "or none (connection closed / HTTP error / nothing within the wait) "
         "+ seeded random programs (1-3 sequences, 1-6 rules, matchers has_resp/qtype/_true/_false with '!', all action "
         "kinds) over pools of the REAL cache, redirect, hosts, black_hole, arbitrary, ttl, ecs_handler, forward_edns0opt, "
         "drop_resp and forward plugins (forward over scripted in-memory upstreams echoing id+question with any rcode, "
@@ -34,11 +43,15 @@ ASSUMPTIONS = [
     "observed UDP reply); responses carrying TSIG are outside that contract and outside the generator",
     "the pack function succeeds on a message of at most 65535 bytes unless its rcode is extended and it has no OPT",
     "Qtype and Qclass are 16 bit values; a record has type 41 exactly when miekg represents it as *dns.OPT",
-    "the lazy cache refresh is NOT modelled; the transports (ServeUDP/ServeTCP/DoH) are covered only as far as "
-    "Handle's FromUDP flag and pack function",
+    "the lazy cache refresh is NOT modelled",
+    "the transports are transparent: the model of a query arriving through ServeUDP / ServeTCP / the DoH handler is "
+    "Handle on the unpacked message with FromUDP set for UDP only (checked on the real servers for a sample of queries "
+    "per run; DoT/DoQ/HTTP3 listeners share these code paths and are not run). A UDP query that must stay unanswered is "
+    "watched for 300 ms; an expected reply is waited for up to 20 s, a closed connection or an HTTP error is an event",
     "fallback and dual_selector: the concurrent sub-runs on context copies are modelled in sequence and their timers "
     "are left out (threshold 60 s in the driver, reference query within its 500 ms grace period); the driver joins the "
-    "goroutines Handle started before observing and accepts any order of the upstream messages of one query",
+    "goroutines Handle started (every case starts from the idle process, the goroutine count right after building the "
+    "plugins is the reference) before observing, and accepts any order of the upstream messages of one query",
     "one program run takes less than 0.4 s of wall time (slower runs are repeated on fresh plugins): no cache entry "
     "expires and no grace period runs out within a run; the theorems hold for any clock",
 ]
@@ -47,7 +60,7 @@ TRUSTED_BASE = [
     "pkg/server_handler/entry_handler.go, pkg/query_context/context.go, the plugin sources and miekg SetReply by "
     "differential execution: Judge.C03.agree = Judge.C15.agree compares per query every message an upstream received, "
     "what the chain left in the context (observed at EntryHandlerOpts.Entry) and the reply (UDP: through the Truncate "
-    "contract)",
+    "contract); for the server cases (CNet) the reply that came back over the socket is compared with the model's",
     "harness/msgx: dns.Msg -> abstract message printer (rdata and option data reduced to tags), scripted upstreams "
     "plugged into the real forward plugin via VerifNewForward",
 ]
@@ -63,7 +76,9 @@ LEVEL_TEXT = ("Theorems in coq/Properties/C03.v for EVERY sequence program (any 
               "appended; over UDP it is a truncation of that allowed by Msg.Truncate's contract, never longer than "
               "max(512, advertised) and with TC = TC || dropped. The model is run inside Coq on every case the Go driver "
               "observed on the real plugins behind the real EntryHandler.Handle, and Judge.C03.spec states the property "
-              "on the observations alone.")
+              "on the observations alone (for the server cases: a well-formed query gets exactly one reply with its id and "
+              "question, QR and RA set, over UDP within max(512, advertised); a malformed one gets none — whatever the "
+              "transport of arrival).")
 LEVEL_NOTE = ("Trusted: Coq kernel + vm_compute; hand-written model tied to the code by the differential run; contracts of "
               "miekg Truncate/Pack; upstreams echo the question. Not covered: lazy cache refresh, the timers of "
               "fallback/dual_selector, the socket-level servers. No axioms.")
